@@ -11,7 +11,10 @@ Import ListNotations.
     invariant the edit theorems start from *)
 Theorem C17_constructor : forall h nx data sp name u s2 A,
   mk_array (h, nx) data sp name u = (s2, Ok A) ->
-  exists errs, error_array data sp = Ok errs /  abs (fst s2) A = combine data errs /\ inv s2 A /  named (fst s2) A name u /\ (A <> [] -> arr_name (fst s2) A = name /\ arr_unit (fst s2) A = u) /  (forall id, (id < nx)%nat -> fst s2 id = h id).
+  exists errs, error_array data sp = Ok errs /\
+  abs (fst s2) A = combine data errs /\ inv s2 A /\
+  named (fst s2) A name u /\ (A <> [] -> arr_name (fst s2) A = name /\ arr_unit (fst s2) A = u) /\
+  (forall id, (id < nx)%nat -> fst s2 id = h id).
 Proof. exact mk_array_spec. Qed.
 Print Assumptions C17_constructor.
 
